@@ -27,6 +27,7 @@ type FixtureCase struct {
 	Sharded  bool   `json:"sharded"`
 	Excl     bool   `json:"excl"`
 	WrapPath string `json:"wrappath"`
+	Many     int    `json:"many"` // dir-custom: number of children (large values make name collisions likely)
 }
 
 // FTree is a described or stored entry tree as the trace carries it.
@@ -180,7 +181,11 @@ func runFixtureCase(fc *FixtureCase, tr *Tr) error {
 			composed = true
 			n := 0
 			opts := []testutil.Option{testutil.WithRandReader(rnd), testutil.WithChildGenerator(func(name string) (*testutil.DirEntry, error) {
-				if n >= 1+fc.Size%7 {
+				limit := 1 + fc.Size%7
+				if fc.Many > 0 {
+					limit = fc.Many
+				}
+				if n >= limit {
 					return nil, nil
 				}
 				n++
@@ -266,7 +271,7 @@ func init() {
 					if mod != nil {
 						mod(fc)
 					}
-					fc.ID = fmt.Sprintf("%s-%d-%d-bw%d-%v-%v", gen, fc.Seed, sz, fc.Bitwidth, fc.Sharded, fc.Excl)
+					fc.ID = fmt.Sprintf("%s-%d-%d-bw%d-%v-%v-m%d", gen, fc.Seed, sz, fc.Bitwidth, fc.Sharded, fc.Excl, fc.Many)
 					return runFixtureCase(fc, tr)
 				}
 				steps := []func() error{
@@ -275,6 +280,12 @@ func init() {
 					func() error { return mk("dir", func(fc *FixtureCase) { fc.Bitwidth = 3 }) },
 					func() error { return mk("dir-custom", nil) },
 					func() error { return mk("dir-custom", func(fc *FixtureCase) { fc.Bitwidth = 2 }) },
+					func() error {
+						if sz != 300 {
+							return nil
+						}
+						return mk("dir-custom", func(fc *FixtureCase) { fc.Many = 220 })
+					},
 					func() error { return mk("gendir", nil) },
 					func() error { return mk("gendir", func(fc *FixtureCase) { fc.Sharded = true }) },
 					func() error { return mk("builddir", nil) },
